@@ -36,6 +36,14 @@ def r1_shell_quoting(chk: Check) -> None:
             construct = f"command part {{{unparse(e, 50)}}}"
             if isinstance(e, ast.Call) and dotted(e.func) == "quote":
                 chk.ok("C09.R1", fn, construct, "shlex.quote", fn.loc(part))
+            elif isinstance(e, ast.Call) and isinstance(e.func, ast.Name) and (r_ := P.resolve_call(fn, e)) and r_[0] == "func":
+                helper = r_[1]
+                rets = simple_return_expr(helper)  # type: ignore[arg-type]
+                pure = bool(rets) and all(isinstance(x, ast.Call) and dotted(x.func) in ("quote", "shlex.quote") and len(x.args) == 1 for x in rets)
+                if pure:
+                    chk.ok("C09.R1", fn, construct, f"{helper.name} is a plain wrapper of shlex.quote", fn.loc(part))  # type: ignore[union-attr]
+                else:
+                    chk.violation("C09.R1", fn, construct, f"quoted by the home-grown helper `{helper.name}` on some path instead of shlex.quote: hand-written shell quoting (e.g. double quotes, where backslash, $ and ` stay special) changes what curl sends for some inputs", fn.loc(part))  # type: ignore[union-attr]
             elif isinstance(e, ast.Name) and e.id == "command":
                 chk.ok("C09.R1", fn, construct, "the command built so far", fn.loc(part))
             elif isinstance(e, ast.Name) and e.id == "method":
